@@ -41,6 +41,9 @@ type c12Result struct {
 	Unescaped bool            `json:"relay_state_unescaped"`
 	Err       string          `json:"err,omitempty"`
 	Detail    []string        `json:"detail,omitempty"`
+	// middleware path: HTTP status of the response, and what differs from the model's choice of binding (drift)
+	Status         int    `json:"http_status,omitempty"`
+	BindingDiffers string `json:"binding_differs,omitempty"`
 }
 
 var c12Fixed = time.Date(2024, 5, 17, 9, 30, 0, 0, time.UTC)
@@ -65,7 +68,11 @@ func c12OffendingClass(relay []string) string {
 
 func c12RunCase(v *spemitVec, c *spemitConc) c12Result {
 	s := spemitSP(v, c)
-	return c12Judge(s, v, c, spemitEmit(s, v, c))
+	e := spemitEmit(s, v, c)
+	js, jv, differs := spemitAdoptEmission(s, v, e)
+	res := c12Judge(js, jv, c, e)
+	res.Status, res.BindingDiffers = e.Status, differs
+	return res
 }
 
 // c12Judge decodes one emission (redirect URL, POST form, or - binding "element" - the serialised element)
@@ -313,6 +320,8 @@ func c12Judge(s *saml.ServiceProvider, v *spemitVec, c *spemitConc, e *spemitEmi
 				add("idp-rejects", "IdpAuthnRequest.Validate failed: "+r.ValidateErr.Error())
 			default:
 				idp.NSAML, idp.Payload = 1, true
+				// the assertion consumer service the IdP selected is the SP's, for either result binding
+				idp.AcsOK = r.ACS == spACS
 				if root != nil && r.ID != res.ID {
 					add("idp-request-id", fmt.Sprintf("the IdP read request ID %q, the message carries %q", r.ID, res.ID))
 				}
@@ -382,6 +391,7 @@ func c12Unexplained(r *c12Result, req, pin *spemitPred) []string {
 		b("idp.destOK", r.Idp.DestOK, req.Idp.DestOK, pin.Idp.DestOK)
 		b("idp.relayRT", r.Idp.RelayRT, req.Idp.RelayRT, pin.Idp.RelayRT)
 		b("idp.payload", r.Idp.Payload, req.Idp.Payload, pin.Idp.Payload)
+		b("idp.acsOK", r.Idp.AcsOK, req.Idp.AcsOK, pin.Idp.AcsOK)
 	}
 	return out
 }
@@ -429,8 +439,14 @@ func TestC12(t *testing.T) {
 			for _, f := range res.Findings {
 				rep.Violation(f.Key, f.Clause, map[string]any{"vector": v, "conc": c, "observed": res})
 			}
+			if res.BindingDiffers != "" {
+				rep.DriftCase("C12:"+id+":binding", res.BindingDiffers, map[string]any{"observed": res})
+			}
 			mu.Lock()
 			cover[v.In.Fam+"/"+v.In.Kind+"-"+v.In.Binding]++
+			if v.In.Fam == "result" {
+				cover[fmt.Sprintf("result=%s/path=%s/%s", v.result(), v.path(), v.In.Binding)]++
+			}
 			if res.ID != "" {
 				if other, dup := seenIDs[res.ID]; dup {
 					mu.Unlock()
@@ -468,6 +484,21 @@ func TestC12(t *testing.T) {
 	}
 	if rep.Classes["MustAccept"] == 0 {
 		rep.Break("vacuous: no MustAccept vectors")
+	}
+	// the result-binding dimension: every AuthnRequest asking for the response over HTTP-Artifact / HTTP-POST, in both
+	// request bindings, from the application and from the middleware, went through the IdP-side validation above
+	for _, need := range []string{"result=artifact/path=direct/redirect", "result=artifact/path=direct/post", "result=artifact/path=middleware/redirect",
+		"result=artifact/path=middleware/post", "result=post/path=middleware/redirect", "result=post/path=middleware/post"} {
+		if cover[need] == 0 {
+			rep.Break("vacuous: no cases for %s", need)
+		}
+	}
+	// the registered configuration has no seeded deviation; a phase before this one runs TLC with AcsLookupStopsAtFirst on
+	// (spec/SPEmit_C12dev.cfg) and must have produced a counterexample to IdpFindsAcs
+	if c13Refuted("Invariant IdpFindsAcs is violated") {
+		rep.Note("model self-test: with AcsLookupStopsAtFirst on (SPEmit_C12dev.cfg) TLC refutes IdpFindsAcs")
+	} else {
+		rep.Break("TLC did not refute IdpFindsAcs under the seeded deviation AcsLookupStopsAtFirst (no counterexample in the work directory): the result-binding dimension of the model is vacuous")
 	}
 	// histories of render calls on one MESSAGE value (spec/SPEmitRenderHistory.tla)
 	c12RenderHistories(t, rep)
